@@ -72,24 +72,40 @@ pub fn has_huge_exponent(text: &str) -> bool {
 /// unknown, so this over-approximates "astronomically large".
 pub fn has_huge_power(text: &str) -> bool {
     let chars: Vec<char> = text.chars().collect();
+    // value of the literal (or tower of literals `8^9`, which the parser reads as 8^(9)) that starts at k
+    fn tower(chars: &[char], mut k: usize, depth: u32) -> u64 {
+        while k < chars.len() && (chars[k] == '*' || chars[k] == '<' || chars[k] == ' ' || chars[k] == '\t' || chars[k] == '-' || chars[k] == '+' || chars[k] == '(') {
+            k += 1;
+        }
+        let mut v: u64 = 0;
+        let mut digits = 0;
+        while k < chars.len() && (chars[k].is_ascii_digit() || chars[k] == '_' || chars[k] == '\u{2009}') {
+            if let Some(d) = chars[k].to_digit(10) {
+                v = v.saturating_mul(10).saturating_add(d as u64);
+                digits += 1;
+            }
+            k += 1;
+        }
+        if digits == 0 || depth > 6 {
+            return v;
+        }
+        while k < chars.len() && (chars[k] == ' ' || chars[k] == '\t' || chars[k] == ')') {
+            k += 1;
+        }
+        let caret = k < chars.len() && (chars[k] == '^' || (chars[k] == '*' && k + 1 < chars.len() && chars[k + 1] == '*'));
+        if caret && v >= 2 {
+            let e = tower(chars, k + 1, depth + 1);
+            if e >= 2 {
+                return v.checked_pow(e.min(64) as u32).unwrap_or(u64::MAX);
+            }
+        }
+        v
+    }
     let mut i = 0;
     while i < chars.len() {
         let op = chars[i] == '^' || (chars[i] == '*' && i + 1 < chars.len() && chars[i + 1] == '*') || (chars[i] == '<' && i + 1 < chars.len() && chars[i + 1] == '<');
-        if op {
-            let mut k = i + 1;
-            while k < chars.len() && (chars[k] == '*' || chars[k] == '<' || chars[k] == ' ' || chars[k] == '\t' || chars[k] == '-' || chars[k] == '+' || chars[k] == '(') {
-                k += 1;
-            }
-            let mut v: u64 = 0;
-            while k < chars.len() && (chars[k].is_ascii_digit() || chars[k] == '_' || chars[k] == '\u{2009}') {
-                if let Some(d) = chars[k].to_digit(10) {
-                    v = v.saturating_mul(10).saturating_add(d as u64);
-                }
-                k += 1;
-            }
-            if v > MAX_EXP_DIGITS_VALUE {
-                return true;
-            }
+        if op && tower(&chars, i + 1, 0) > MAX_EXP_DIGITS_VALUE {
+            return true;
         }
         i += 1;
     }
@@ -267,7 +283,13 @@ impl<'a> Interp<'a> {
                                 // exponent. Only the *dimension* exponents get large: the statement lets
                                 // an input with a huge literal exponent take long (rendering a result
                                 // like meter^1073741824 does), but it must still not crash.
-                                if k > 4096.0 {
+                                // (the exponent that matters is the one the dimensions end up with:
+                                // `((m^49)^49)^6` is m^14406 although no literal is large)
+                                let resulting = match catch(|| self.ctx.eval(e)) {
+                                    Ok(Ok(Value::Number(n))) => n.unit.iter().map(|(_, p)| p.unsigned_abs()).max().unwrap_or(0),
+                                    _ => 0,
+                                };
+                                if k > 4096.0 || resulting > 4096 {
                                     self.may_overrun = true;
                                 }
                                 (1, 1)
@@ -407,5 +429,58 @@ pub fn classify(ctx: &Context, line: &str, ans_bits: (u64, u64)) -> Classified {
             None => Cost::Cheap,
         },
         parsed_ok,
+    }
+}
+
+/// The static bound applied to a whole definitions text: every expression of every definition the
+/// definitions parser finds in it is sized like a query's (names the text defines itself are not in
+/// `ctx`: they count as 2048-bit values). Some(reason) when one of them is on the expensive side of
+/// C04's line or raises a unit-magnitude value to a huge power.
+pub fn defs_expensive(ctx: &Context, text: &str) -> Option<&'static str> {
+    use rink_core::ast::Def;
+    let mut defs = vec![];
+    let text = text.to_string();
+    let _ = crate::props::c08::capture_stdout(|| {
+        if let Ok(d) = catch(|| rink_core::loader::gnu_units::parse_str(&text).defs) {
+            defs = d;
+        }
+    });
+    let mut it = Interp { ctx, why: None, ans_bits: (1, 1), may_overrun: false };
+    for e in &defs {
+        match &*e.def {
+            Def::Unit { expr } | Def::Quantity { expr } | Def::Prefix { expr, .. } => {
+                it.size(&expr.0);
+            }
+            Def::Substance { properties, .. } => {
+                for p in properties {
+                    it.size(&p.input.0);
+                    it.size(&p.output.0);
+                }
+            }
+            _ => {}
+        }
+        if let Some(w) = it.why {
+            return Some(w);
+        }
+        if it.may_overrun {
+            return Some("a power above 4096 of a value of magnitude one");
+        }
+    }
+    None
+}
+
+#[cfg(test)]
+mod huge_power_tests {
+    use super::has_huge_power;
+    #[test]
+    fn towers() {
+        assert!(has_huge_power("K_J90 4395^8^9"));
+        assert!(has_huge_power("x 2^(3^(4^5))"));
+        assert!(has_huge_power("x 444^4444444"));
+        assert!(has_huge_power("x 2 ** 10 ** 4"));
+        assert!(has_huge_power("1 << 99999"));
+        assert!(!has_huge_power("x 2^3^2"));
+        assert!(!has_huge_power("m^2 kg^-3 10^24"));
+        assert!(!has_huge_power("a^5000"));
     }
 }
